@@ -20,7 +20,11 @@ RULE = (
     "canonical text; preprocess(preprocess(x)) == preprocess(x) and "
     "re-parsing pp_desc changes nothing (also as an icontract post-condition "
     "on scrub_aliquots). Bare-quarter family: 'NE' is an aliquot iff "
-    "clean_qq or directly after a half. Thorough: every (spelling x spelling "
+    "clean_qq or directly after a half. Context family: the same chains "
+    "inside a longer description (before 'of Lot 1', ', Lot 1', 'less and "
+    "except ...', after 'Lot 2, ', 'that part of the ' ...) give the "
+    "preprocessed text, lots and aliquots of the canonical spelling in the "
+    "same surroundings. Thorough: every (spelling x spelling "
     "x joiner) of all 64 two-component chains. Non-trivial: >= 2 components "
     "or a non-canonical spelling. Distinct by (text, config)."
 )
@@ -31,8 +35,8 @@ ASSUMPTIONS = [
     "slash, bare, fraction).",
 ]
 MIN_NONTRIVIAL = {'quick': 15000, 'thorough': 300000}
-REQUIRED_MONITORS = ['boundary:Tract', 'fixed-point',
-                     'contract:scrub_aliquots', 'bare-quarter']
+REQUIRED_MONITORS = ['boundary:Tract', 'fixed-point', 'unparsed-pp_desc',
+                     'contract:scrub_aliquots', 'bare-quarter', 'context']
 EXHAUSTIVE_SUBSPACES = {
     'thorough': ["all 64 two-component chains x every spelling pair x every "
                  "applicable joiner (default config)"],
@@ -60,7 +64,8 @@ def plan(tier, seed):
 def render(chain, spellings, joiners):
     out = spellings[0][0]
     for (txt, tag), (ptxt, ptag), j in zip(spellings[1:], spellings, joiners):
-        if j == '' and not (ptag in ENDS_IN_DIGIT and tag in COMPACT):
+        if j == '' and not (ptag in ENDS_IN_DIGIT
+                            and (tag in COMPACT or tag == 'plain-after-half')):
             j = ' '
         out += j + txt
     return out
@@ -98,6 +103,14 @@ def check_chain(chain, spellings, joiners, cfg, ctx, rep, pytrs):
                           f"(config {cfg!r})")
             return
         ctx.hit('fixed-point')
+        u = pytrs.Tract(text, config=cfg or None)       # not parsed
+        if u.pp_desc != a.pp_desc or u.preprocess() != a.pp_desc:
+            ctx.violation('not-a-fixed-point', case,
+                          f"unparsed Tract({text!r}, config={cfg!r}) shows "
+                          f"pp_desc {u.pp_desc!r}, preprocess() gives "
+                          f"{u.preprocess()!r}; parsed: {a.pp_desc!r}",
+                          dedup='unparsed')
+            return
         pre = a.preprocess()
         t2 = pytrs.Tract(pre, config=cfg or None)
         if t2.preprocess() != pre:
@@ -109,6 +122,37 @@ def check_chain(chain, spellings, joiners, cfg, ctx, rep, pytrs):
                           f"re-parsing {a.pp_desc!r} gives {c.pp_desc!r} "
                           f"{c.lots} {c.qqs}, first parse gave {a.lots} "
                           f"{a.qqs}")
+
+
+CONTEXTS = [('', ' of Lot 1'), ('', ' of the Lot 1'), ('', ' Lot 1'),
+            ('', ', Lot 1'), ('Lot 2, ', ''), ('Lots 1 - 3; ', ', Lot 5'),
+            ('', ' less and except the road'), ('', ' of Lots 4 and 5'),
+            ('that part of the ', ' lying north of the river'),
+            ('', '; '), ('', ' and the '), ('ALL of the ', '')]
+
+
+def check_context(chain, spellings, joiners, cfg, head, tail, ctx, rep, pytrs):
+    """The chain inside a larger description: whatever surrounds it, every
+    spelling gives the preprocessed text, lots and aliquots of the canonical
+    spelling in the same surroundings."""
+    text = head + render(chain, spellings, joiners) + tail
+    canon = head + B.canonical_chain(chain) + tail
+    case = {'context': True, 'chain': list(chain), 'text': text, 'cfg': cfg,
+            'canon': canon, 'tags': [t for _, t in spellings]}
+    rep.set_case(case)
+    ctx.case([text, cfg], True, shape=f"context|{cfg or 'default'}",
+             sample={'text': text, 'canonical': canon, 'config': cfg})
+    ctx.hit('context')
+    with ctx.guard(case):
+        a = parse(pytrs, text, cfg)
+        b = parse(pytrs, canon, cfg)
+        if a.pp_desc != b.pp_desc or a.lots != b.lots or a.qqs != b.qqs:
+            ctx.violation(
+                'spelling-matters-in-context', case,
+                f"{text!r} -> pp_desc {a.pp_desc!r} lots {a.lots} qqs "
+                f"{a.qqs}; canonical spelling {canon!r} -> {b.pp_desc!r} "
+                f"{b.lots} {b.qqs} (config {cfg!r})",
+                dedup=f"{head}|{tail}|{spellings[-1][1]}|{spellings[0][1]}")
 
 
 BARE_CASES = [
@@ -146,6 +190,19 @@ def check_bare(text, exp_plain, exp_clean, ctx, rep, pytrs):
         with ctx.guard(case):
             if kw is None:
                 t = pytrs.Tract(text, parse_qq=True, config=cfg or None)
+                # A tract that was configured but not parsed shows the same
+                # preprocessed text, and preprocessing again changes nothing.
+                ctx.hit('unparsed-pp_desc')
+                u = pytrs.Tract(text, config=cfg or None)
+                shown = u.pp_desc
+                again = u.preprocess()
+                if not (shown == again == t.pp_desc):
+                    ctx.violation(
+                        'bare-quarter', case,
+                        f"{text!r} config {cfg!r}: an unparsed Tract shows "
+                        f"pp_desc {shown!r}, its preprocess() gives {again!r}"
+                        f", a parsed Tract has {t.pp_desc!r}",
+                        dedup=f"unparsed|{cfg}")
             elif cfg and ctx.evaluations % 2:
                 # parsed once under the config, then again with the keyword
                 t = pytrs.Tract(text, parse_qq=True, config=cfg)
@@ -244,11 +301,35 @@ def run_shard(shard, ctx):
                 if c in B.QUARTERS and rng.random() < 0.5:
                     spellings[i] = (rng.choice([c, c.lower(), c.title()]),
                                     'plain')
+        if rng.random() < 0.35:
+            # Directly after a half a bare quarter is an aliquot under every
+            # configuration ('E/2NE', 'NW/4E/2NE', 'North Half of the SW').
+            for i in range(1, n):
+                if chain[i] in B.QUARTERS and chain[i - 1] in B.HALVES \
+                        and spellings[i - 1][1] != 'plain':
+                    c = chain[i]
+                    spellings[i] = (rng.choice([c, c, c.lower(), c.title()]),
+                                    'plain-after-half')
         check_chain(chain, spellings, joiners, cfg, ctx, rep, pytrs)
+        if rng.random() < 0.3:
+            head, tail = rng.choice(CONTEXTS)
+            check_context(chain, spellings, joiners, cfg, head, tail, ctx,
+                          rep, pytrs)
 
 
 def replay(case, ctx):
     pytrs, rep = _setup(ctx)
+    if case.get('context'):
+        a = parse(pytrs, case['text'], case['cfg'])
+        b = parse(pytrs, case['canon'], case['cfg'])
+        ctx.case([case['text'], case['cfg']], True, shape='context')
+        ctx.hit('context')
+        if a.pp_desc != b.pp_desc or a.lots != b.lots or a.qqs != b.qqs:
+            ctx.violation('spelling-matters-in-context', case,
+                          f"{case['text']!r} -> {a.pp_desc!r} {a.lots} "
+                          f"{a.qqs}; canonical {case['canon']!r} -> "
+                          f"{b.pp_desc!r} {b.lots} {b.qqs}")
+        return
     if case.get('bare'):
         for text, p, c in BARE_CASES:
             if text == case['text']:
